@@ -26,8 +26,19 @@ func preBuffer(err error) bool {
 }
 
 func TestBufferLimitsAndFlush(t *testing.T) {
+	bufferLimits(t, wl.ProdFocus{SmallLimits: true, NoFaults: true, DelayFaults: true, MutateInPromise: true})
+}
+
+// TestBufferLimitsBurst searches the sub-domain in which many producing goroutines start at
+// the same instant against a tiny buffer, so that several are parked on the limit and woken
+// together (the window in which a lost or early wake-up shows).
+func TestBufferLimitsBurst(t *testing.T) {
+	bufferLimits(t, wl.ProdFocus{SmallLimits: true, NoFaults: true, DelayFaults: true, MutateInPromise: true, Burst: true})
+}
+
+func bufferLimits(t *testing.T, focus wl.ProdFocus) {
 	rapid.Check(t, func(rt *rapid.T) {
-		plan := wl.GenProdPlan(rt, wl.ProdFocus{SmallLimits: true, NoFaults: true, DelayFaults: true, MutateInPromise: true})
+		plan := wl.GenProdPlan(rt, focus)
 		var o *wl.ProdObs
 		var blockedSeen, cancelWhileBlocked, flushOverlap bool
 		bubble.Run(t, rt, func(e *bubble.Env) {
@@ -50,6 +61,9 @@ func TestBufferLimitsAndFlush(t *testing.T) {
 		}
 		if plan.Cfg.Manual {
 			ev.Class("manual-flushing")
+		}
+		if focus.Burst {
+			ev.Class("burst-plan")
 		}
 		if plan.Cfg.MaxBufBytes > 0 {
 			ev.Class("bytes-limit")
